@@ -25,7 +25,8 @@ func init() {
 var c16Coords = []float64{0, math.Copysign(0, -1), 0.1, -1e300, 4.9e-324, 123456789.123456789}
 
 // attribute pools (indices are shared with Shapefile.tla)
-var c16Names = []string{"", "a", "inner  spaces kept", strings.Repeat("x", 25) + strings.Repeat("Z", 25)}
+// (the last three begin or end with white space other than the blank, which is ordinary content of a string attribute)
+var c16Names = []string{"", "a", "inner  spaces kept", strings.Repeat("x", 25) + strings.Repeat("Z", 25), "trailing tab\t", "\r\nleading line break", "10\u00a0km\u00a0"}
 var c16Floats = []float64{0.5, 1.0 / 3.0, -123456.0625, 12345678901234567.0, 0.00000000005}
 
 func c16CoordDec(v interface{}) float64 { return c16Coords[num(v)-1] }
